@@ -227,6 +227,9 @@ func main() {
 	for _, c := range []string{"unknown-input", "coins-created", "coins-destroyed", "hours-created", "wrong-owner", "dup-output", "zero-coin", "bad-length", "out-hours-overflow", "hard+soft"} {
 		r.Floor("node.class."+c, 5)
 	}
+	for _, rule := range []string{"size", "fee-zero", "fee-insufficient", "locked", "precision"} {
+		r.Floor("node.sole-soft."+rule, 20) // hard-valid, exactly this one soft rule broken under the pool's parameters
+	}
 	r.Floor("fn.forged-length.cases", 100)
 	r.Floor("node.foreign.admitted-clean", 20)
 	r.Floor("node.foreign.admitted-with-soft-error", 20)
@@ -235,11 +238,23 @@ func main() {
 	r.Floor("node.user.refused-soft", 20)
 	r.Floor("node.user.refused-hard", 20)
 	r.Floor("node.params-differ.user-soft-foreign-clean", 5)
+	// publisher phase: create-block parameters stricter than the unconfirmed-pool parameters
+	r.Floor("node.pub.lanes-params-differ", int64(r.Pick(12, 48)))
+	for _, d := range []string{"burn", "precision", "size"} {
+		r.Floor("node.pub.lanes-params-differ."+d, int64(r.Pick(4, 16)))
+	}
+	r.Floor("node.pub.blocks-created.params-differ", int64(r.Pick(12, 48)))
+	r.Floor("node.pub.block-txns.judged", int64(r.Pick(60, 240)))
+	r.Floor("node.pub.left-out.between", int64(r.Pick(30, 120)))
+	for _, b := range []string{"fee-insufficient", "precision", "size"} {
+		r.Floor("node.pub.left-out.between."+b, int64(r.Pick(4, 16)))
+	}
 	r.Extra("cpu_s", txk.CPUSeconds())
-	r.Finish("fn: seeded tuples (1-4 inputs, 1-40 outputs, burn factor in {2,3,10,100,2^31,2^32-1}, max size in {1024, size, size-1, size+1, 2^32-1} with size >= 1024, precision 0..6, 0-6 distribution addresses with 0..n unlocked, inputs owned by locked/unlocked/ordinary addresses, head time after/at/before the outputs' times); output hours are solved from the big-integer input hours so that the fee is zero / one short of / exactly / one over the requirement, or hours overflow at a chosen step; accept/reject and the error's Go type are compared with the model. node: per lane a real publisher+follower with its own unconfirmed-pool parameters (user parameters set to burn 3 / size 2048 / precision 2 for the process), 18 classes of transactions (8 soft, 10 hard) solved against the shadow ledger at the current head. A case is non-trivial when the set of broken rules, the boundary hit and the parameter triple form a distinct class.",
+	r.Finish("fn: seeded tuples (1-4 inputs, 1-40 outputs, burn factor in {2,3,10,100,2^31,2^32-1}, max size in {1024, size, size-1, size+1, 2^32-1} with size >= 1024, precision 0..6, 0-6 distribution addresses with 0..n unlocked, inputs owned by locked/unlocked/ordinary addresses, head time after/at/before the outputs' times); output hours are solved from the big-integer input hours so that the fee is zero / one short of / exactly / one over the requirement, or hours overflow at a chosen step; accept/reject and the error's Go type are compared with the model. node: per lane a real publisher+follower with its own unconfirmed-pool parameters (user parameters set to burn 3 / size 2048 / precision 2 for the process), 18 classes of transactions (8 soft, 10 hard) solved against the shadow ledger at the current head; at the end of each lane a publisher-mode node whose create-block parameters are stricter than its unconfirmed-pool parameters (burn factor and/or precision and/or size; 12 of 16 lanes) receives batches of the soft classes solved against either parameter set (some lie between the two), creates blocks with an injected clock, and every transaction of every created block is judged by the same model under the create-block parameters at the head time used (transactions left out: between the two sets = expected, valid under the create-block set with room in the block = violation). A case is non-trivial when the set of broken rules, the boundary hit and the parameter triple form a distinct class.",
 		"the model states the soft rules as the property does: size <= limit; fee = sum of input hours at head time - sum of output hours > 0 and >= ceil(input hours / burn factor); no input owned by a locked distribution address; every output a multiple of 10^(6-precision)",
 		"when input or output hours are not representable in 64 bits (accrual product, final addition, sums) the fee is not computable: expected reject; when only the unchecked intermediate sum of coin-seconds wraps (property C31, D17) nothing is asserted for the fee rule (counted as fn.unstated)",
 		"hard validity at node level comes from lib/ledger.TxnSingleHard",
+		"a publisher node judges its pool with its create-block parameters at the time of its head block (the new block's own time plays no part); a transaction valid under them is expected in the created block only when no pool transaction shares an input and everything eligible fits into one block",
 		"parameters stay within their validated ranges (burn >= 2, size limit >= 1024, precision <= 6, unlocked count <= addresses)",
 		"held on the cases generated; not a proof",
 	)
@@ -732,7 +747,7 @@ func legNode() {
 		lp := laneParams[li%len(laneParams)]
 		l, err := txk.NewLane(fmt.Sprintf("c11-s%d-l%d", r.Seed, li), dir, 100000000000000, 10, 4, 2, func(c *fix.Chain) {
 			c.Unconfirmed = lp
-			c.CreateBlock = lp
+			c.CreateBlock = createParams(li, lp) // stricter than (or equal to) the pool's: publisher phase
 			c.MaxBlock = 65536
 		})
 		if err != nil {
@@ -812,6 +827,9 @@ func runLane(l *txk.Lane, g *rand.Rand, li, perLane int) {
 			}
 		}
 		r.Count("node.class."+class, 1)
+		if known && len(hard) == 0 && len(softF.Broken) == 1 {
+			r.Count("node.sole-soft."+softF.Broken[0], 1) // one soft rule broken and nothing else
+		}
 		w := map[string]interface{}{"txn": hx(ledger.TxnBytes(&t)), "class": class, "inputs": uxIn, "head_time": l.M.HeadTime(),
 			"model_hard": hard, "model_soft_unconfirmed": softF.Broken, "model_soft_user": softU.Broken, "unconfirmed_params": unconfVP, "user_params": userVP}
 		r.Distinct(fmt.Sprintf("node:%s:%s:%s:%s:%d", class, join(hard), join(softF.Broken), join(softU.Broken), li%len(laneParams)))
@@ -845,6 +863,8 @@ func runLane(l *txk.Lane, g *rand.Rand, li, perLane int) {
 			r.Count("node.params-differ.user-soft-foreign-clean", 1)
 		}
 	}
+	// last: the publisher-mode node creates blocks from its own pool (its chain leaves the follower's)
+	runPublisher(l, g, li)
 }
 
 // judge compares the node's answer with the expected classification
@@ -1037,9 +1057,19 @@ func genNode(l *txk.Lane, g *rand.Rand, class string, unconf, user params.Verify
 		}
 		var outs []coin.TransactionOutput
 		for i := 0; i < n-1; i++ {
-			outs = append(outs, txk.Out(dest(), unit, uint64(i%3)))
+			// (address, hours) pairs all distinct: identical outputs would make the transaction hard-invalid
+			_ = dest() // keeps the lane's random stream as it was
+			outs = append(outs, txk.Out(l.Keys[4+i%(len(l.Keys)-4)].Addr, unit, uint64(i/(len(l.Keys)-4))))
 		}
-		outs = append(outs, txk.Out(dest(), coins-uint64(n-1)*unit, ample/2))
+		var small uint64
+		for _, o := range outs {
+			small += o.Hours
+		}
+		last := ample / 2
+		if small > ample/2 {
+			last = 0 // the model decides what else such a transaction breaks
+		}
+		outs = append(outs, txk.Out(dest(), coins-uint64(n-1)*unit, last))
 		return mk(outs), true
 	case "soft-multi":
 		if unconf.MaxDropletPrecision >= 6 {
